@@ -187,7 +187,17 @@ func (net *Net) deliverFlight(f *Flight) {
 		return
 	}
 	net.mon.beforeDeliver(n, f)
+	n.CurProposalView = nil
+	switch pm := interfaces.ToConsensusMessage(f.Raw).(type) {
+	case *interfaces.PreprepareMessage:
+		v := uint64(pm.View())
+		n.CurProposalView = &v
+	case *interfaces.NewViewMessage:
+		v := uint64(pm.View())
+		n.CurProposalView = &v
+	}
 	net.event(n, "deliver "+enc, func() (string, string) { return n.Deliver(f.Raw) })
+	n.CurProposalView = nil
 	net.mon.afterDeliver(n, f, enc)
 }
 
